@@ -42,7 +42,7 @@ func init() {
 				n, sweep = 4000, 10
 			}
 			return []runner.Phase{
-				{Name: "scenarios", Variant: "race", Cases: n, Run: c01case, CaseTimeout: 180 * time.Second, Required: []string{"late_delivered_then_reused", "calls_ok", "calls_server_error", "calls_timeout", "calls_ctx", "window_scenarios", "answers_split_across_the_read_timeout", "answers_longer_than_a_mebibyte", "write_stalls_between_two_frames", "rows_read_after_later_answers_arrived"}},
+				{Name: "scenarios", Variant: "race", Cases: n, Run: c01case, CaseTimeout: 180 * time.Second, Required: []string{"late_delivered_then_reused", "calls_ok", "calls_server_error", "calls_timeout", "calls_ctx", "window_scenarios", "answers_split_across_the_read_timeout", "answers_longer_than_a_mebibyte", "write_stalls_between_two_frames", "rows_read_after_later_answers_arrived", "answers_split_beyond_the_read_retries"}},
 				{Name: "stream-sweep", Variant: "plain", Cases: sweep, Shards: 2, Run: c01sweep, CaseTimeout: 300 * time.Second, Required: []string{"ids_swept"}},
 			}
 		},
@@ -110,6 +110,13 @@ func c01cfg(c *runner.Ctx, i int) *echoCfg {
 			ec.reusePhase = 200
 		}
 	}
+	if i%12 == 10 {
+		// (within the split family) the gap outlasts every retry of the driver's body read: the driver gives the
+		// frame up in the middle - and with it its place in the stream; it must not go on reading "headers" from there
+		ec.splitGapX = 6 + r.Intn(3)
+		ec.timeout = time.Duration(15+r.Intn(15)) * time.Millisecond
+		ec.pSplit = 2
+	}
 	if i%12 == 3 {
 		// family: a few answers are 1..4 MiB long (not a whole number of MiB), with ordinary answers right behind them
 		ec.hugeAnswers = true
@@ -173,6 +180,9 @@ func c01case(c *runner.Ctx, i int) {
 		c.Violation(fmt.Sprintf("C01:wrong-response:v%d", ec.version), "a caller received a response that belongs to another request: "+m, wit)
 	}
 	c.Add("answers_split_across_the_read_timeout", res.splits)
+	if ec.splitGapX > 0 {
+		c.Add("answers_split_beyond_the_read_retries", res.splits)
+	}
 	c.Add("answers_longer_than_a_mebibyte", res.hugeSent)
 	c.Add("rows_read_after_later_answers_arrived", res.heldIters)
 	if ec.stallAtBoundary {
